@@ -492,6 +492,10 @@ func (env *Env) call(n *ECall) Val {
 		return boolVal(Eq(v, app(SReal, "to_real", app(SInt, "to_int", v))))
 	case "truncdiv":
 		return intVal(x.truncDiv(arg(0).T(), arg(1).T()))
+	case "usertoken":
+		return Val{Typ: types.Typ[types.String], C: []Term{x.uf("usertoken", []Sort{SInt}, SInt, arg(0).T())}}
+	case "authok":
+		return boolVal(x.uf("authok", []Sort{SInt, SInt}, SBool, arg(0).T(), arg(1).T()))
 	case "keccak":
 		return intVal(x.uf("keccak", []Sort{SInt}, SInt, arg(0).C[0]))
 	case "hashbytes":
